@@ -1285,7 +1285,15 @@ def gen_taglist(rng, cur: str):
             t = cur if rng.random() < 0.45 else rng.choice(TAGS)
             tags.append((rng.random() < 0.35, t))
         sep = rng.choice([", ", ",", " , ", ",  ", "\t,\t"])
-        text = sep.join(("W/" if w else "") + '"' + t + '"' for w, t in tags)
+        elems = [("W/" if w else "") + '"' + t + '"' for w, t in tags]
+        if rng.random() < 0.2:
+            # empty list elements (leading, in the middle, doubled): RFC 7230 lists allow them and they carry no tag; the code
+            # reads one as the empty unquoted tag, which only matters against an empty current tag (then: meaning unknown)
+            for _ in range(rng.choice([1, 1, 2])):
+                elems.insert(rng.randint(0, len(elems) - 1), "")
+            text = sep.join(elems).lstrip()
+            return text, ((False, tags) if cur != "" else None)
+        text = sep.join(elems)
         return text, (False, tags)
     garbage = ['abc', '"abc', 'abc"', 'W/', '"a" "b"', ',', ', ,', ' ', '"abc" x', 'w/"abc"', 'W/abc', '**', '"*"', 'W/*',
                '"a", *', f'{cur}', f'"{cur}"  ', f'"{cur}";', "\"a\\\"b\"", '\x1f"abc"', '"abc" ,"xyz"', "''"]
@@ -1798,6 +1806,10 @@ def corpus_cases() -> list[Case]:
         mk(inm='"a", W/"*"', inm_sem=(False, [(False, "a"), (True, "*")]), etag=E[0], etag_sem=E[1]),
         mk(im='"*"', im_sem=(False, [(False, "*")]), etag=E[0], etag_sem=E[1]),
         mk(inm='"*"', inm_sem=(False, [(False, "*")]), etag='"*"', etag_sem=(False, "*")),
+        # empty list elements do not hide the tags after them
+        mk(inm='"v1", , "abc"', inm_sem=(False, [(False, "v1"), (False, "abc")]), etag=E[0], etag_sem=E[1]),
+        mk(inm=',"abc"', inm_sem=(False, [(False, "abc")]), etag=E[0], etag_sem=E[1]),
+        mk(im='"a",,"abc"', im_sem=(False, [(False, "a"), (False, "abc")]), etag=E[0], etag_sem=E[1]),
         # not pinned: over-long suffix
         mk(range="bytes=-5", range_sem=("suffix", 5), data=b"abc", chunks=[b"abc"]),
         # known: failed If-Range overridden by a matching If-None-Match / a failing If-Match / If-Modified-Since
@@ -1934,7 +1946,7 @@ def run(chk: Check) -> None:
     # ------------------------------------------------ (3) the functions directly, model vs implementation
     # parse_etags / unquote_etag
     n_t = 3000 if quick else 60000
-    tag_texts = ['"*"', 'W/"*"', '"a", "*"', '"*", "a"', 'W/"*", *', '""', 'W/""', '"a" b, "c"', 'W/"a", "b" ,c', '"a"  ', ", abc", "W/*", '"*"', "*", "w/", 'W/"x', '"a","b', "a b , c",
+    tag_texts = ['"v1", , "v2"', ',"v2"', '"a",,"b"', '"a" ,\t, W/"b"', ', , "a"', ',,', '"a", ,', '"*"', 'W/"*"', '"a", "*"', '"*", "a"', 'W/"*", *', '""', 'W/""', '"a" b, "c"', 'W/"a", "b" ,c', '"a"  ', ", abc", "W/*", '"*"', "*", "w/", 'W/"x', '"a","b', "a b , c",
                  "\x1f,a", "a\x0b", '  "a"', '"a" "b"', 'W/W/"a"', '"a",', ",", " ", '*, "a"', '"a", *', "", " , a", '"'] 
     atoms = ['"', "W/", "w/", ",", " ", "\t", "*", "a", "b", "abc", '"abc"', 'W/"abc"', ", ", "\x1f", " ", " ", "/", "W", "\\", "''"]
     for _ in range(n_t):
